@@ -184,7 +184,7 @@ class Interp:
 
     def e_List(self, node, st):
         items = [self.eval(e, st) for e in node.elts]
-        et = "any"
+        et = lib.etype_of(items[0]) if items else "any"
         return st.alloc(Arr((len(items),), lambda i, items=items: self._pick(items, i), kind="list", etype=et), "arr")
 
     def e_Dict(self, node, st):
@@ -597,13 +597,23 @@ class Interp:
                 spec = self.reg["classes"].get(c)
                 if spec is not None and attr in spec.fields:
                     t = spec.fields[attr]
-                    if t in ("int", "nat", "real", "bool", "str", "class") or t.startswith("opaque"):
-                        from .engine import _wrap, _zsort
-                        f = z3.Function(f"fld_{attr}", ObjS, _zsort("int" if t == "nat" else t))
+                    from .engine import _wrap, _zsort
+                    if t in ("int", "nat", "pos", "real", "bool", "str", "class") or t.startswith("opaque"):
+                        f = z3.Function(f"fld_{attr}", ObjS, _zsort(t))
                         v = f(base.term)
                         if t == "nat":
                             st.fact(v >= 0)
-                        return _wrap(v, "int" if t == "nat" else t)
+                        if t == "pos":
+                            st.fact(v >= 1)
+                        return _wrap(v, t)
+                    if t.startswith("seq[") and not t[4:-1].startswith(("seq", "arr", "list")):
+                        inner = t[4:-1]
+                        lf = z3.Function(f"fld_{attr}#len", ObjS, z3.IntSort())
+                        ef = z3.Function(f"fld_{attr}#el", ObjS, z3.IntSort(), _zsort(inner))
+                        n = lf(base.term)
+                        st.fact(n >= 0)
+                        return Arr((n,), lambda i, tm=base.term: _wrap(ef(tm, to_z3(i)), inner), kind="tuple",
+                                   etype=inner)
                     raise Unsupported(f"opaque field {cls}.{attr} of non-scalar type {t}")
             if cls in self.repo.classes and self.repo.find_method(cls, attr) is not None:
                 return BoundMethod(base, attr)
